@@ -603,6 +603,26 @@ func c08Faults() []fault {
 		}
 		return v
 	}
+	// requests this library is lenient about and DynamoDB refuses (a Key that carries an attribute besides the key
+	// attributes - a listed finding): accepted or refused, but a refusal - at whatever step - leaves no trace
+	limit("batch-valid-then-delete-key-with-surplus-attribute", func(r *rand.Rand, t string, p val.Item) adapt.Op {
+		sk := k(p).Clone()
+		sk["kind"] = val.Str("not a key attribute")
+		return adapt.Op{Kind: adapt.OpBatchWrite, Batch: []adapt.BatchEntry{{Table: t, Put: ixItem("b2", "1", "x", "1", 1)}, {Table: t, Del: sk}}}
+	})
+	limit("batch-two-tables-delete-key-with-surplus-attribute", func(r *rand.Rand, t string, p val.Item) adapt.Op {
+		return adapt.Op{Kind: adapt.OpBatchWrite, Batch: []adapt.BatchEntry{{Table: t, Put: ixItem("b2", "1", "x", "1", 1)}, {Table: t, Del: k(p)}, {Table: "oth08", Del: val.Item{"h": val.Str("o1"), "z": val.Num("1")}}}}
+	})
+	limit("delete-key-with-surplus-attribute", func(r *rand.Rand, t string, p val.Item) adapt.Op {
+		sk := k(p).Clone()
+		sk["kind"] = val.Str("not a key attribute")
+		return adapt.Op{Kind: adapt.OpDelete, Table: t, Key: sk, RetOld: true}
+	})
+	limit("update-key-with-surplus-attribute", func(r *rand.Rand, t string, p val.Item) adapt.Op {
+		sk := k(p).Clone()
+		sk["kind"] = val.Str("not a key attribute")
+		return mon.SetUpdate(t, sk, "w", val.Str("touched"))
+	})
 	for _, d := range []int{33, 40, 200} {
 		d := d
 		limit(fmt.Sprintf("put-nesting-%d", d), func(r *rand.Rand, t string, p val.Item) adapt.Op {
